@@ -118,6 +118,8 @@ def render_status(p, tid=None):
     if p.zombie:
         state = "Z"
     out = []
+    if getattr(p, "status_name", None) is not None and (tid is None or tid == p.pid):
+        comm = p.status_name
     out.append(b"Name:\t" + escape_comm_status(comm) + b"\n")
     out.append(b"Umask:\t0022\n")
     out.append(f"State:\t{state} ({STATE_NAMES.get(state, 'unknown')})\n".encode())
